@@ -101,7 +101,8 @@ TSettle == /\ IsEv("Settle") /\ Consume /\ UNCHANGED <<dvars, kpend, kok>>
            /\ {Ev.present[i] : i \in DOMAIN Ev.present} = {n \in Names : dirGen # 0 /\ files[n] # None}
            /\ mpc = "idle" /\ active = Expected
 TStop == Logged("Stop", MStop)
-TGone == Logged("SvcGone", MJoined)
+\* the destroyed service leaves no inotify instance behind
+TGone == Logged("SvcGone", MJoined) /\ Ev.inotifyFds = 0
 
 TraceNext ==
   \/ TReset \/ TInitFile \/ TCtorBegin \/ TFsCall \/ TFsRet \/ KStep
